@@ -230,6 +230,9 @@ def _ident_key(v):
 
 
 def binop(I, fr, op, l, r, node):
+    for a_ in (l, r):
+        if partial_empty(a_):
+            I.emit("uninit-read", fr, node, what="arithmetic on an np.empty buffer of which only %s was written" % (sorted(a_.note[2]) or "nothing"))
     # ---- sequences and strings
     if l.kind == K_STR or r.kind == K_STR:
         if isinstance(op, (ast.Mod, ast.Add, ast.Mult)):
@@ -1413,7 +1416,21 @@ LIB_SIG = {"numpy.interp": ("x", "xp", "fp"), "scipy.signal.resample": ("x", "nu
            "numpy.outer": ("a", "b"), "numpy.dot": ("a", "b"), "numpy.mean": ("a", "axis")}
 
 
+def partial_empty(av):
+    """an np.empty buffer of which, provably, not every element has been written: every store so far was one of the recognised regions
+    (first / last element, all but the first / last, everything) and together they do not cover the array"""
+    if av is None or av.kind != K_ARRAY or not (("alloc:empty" in av.tags) or ("alloc:empty-written" in av.tags)):
+        return False
+    if not (isinstance(av.note, tuple) and av.note and av.note[0] == "init"):
+        return False
+    regions = av.note[2]
+    return not ("all" in regions or {"all-but-last", "last"} <= regions or {"all-but-first", "first"} <= regions)
+
+
 def call_lib(I, fr, name, args, kwargs, node):
+    for a_ in args:
+        if isinstance(a_, AV) and partial_empty(a_):
+            I.emit("uninit-read", fr, node, what="%s reads an np.empty buffer of which only %s was written" % (name, sorted(a_.note[2]) or "nothing"))
     if name in _UFUNC_FORMS and name not in LIB:
         # ufunc method forms: np.add.accumulate(x[, axis]) = np.cumsum(x, axis=0 by default), np.add.reduce(x[, axis]) = np.sum(x, axis=0 ...)
         kwargs = dict(kwargs)
